@@ -73,11 +73,13 @@ class Ctx:
         self.comp_n = 0
         self.unsupported = None
 
-    def oblige(self, kind, st, goal, line=0, note="", force=False):
+    def oblige(self, kind, st, goal, line=0, note="", force=False, extra=()):
         if self.spec_mode:
             return
         if z3.is_true(goal) and not force:
             return
+        if extra:
+            st = State(st.env, list(st.pc) + list(extra))
         # names are ordinal per kind (not line based): an edit elsewhere in the file must not rename them
         n = sum(1 for o in self.obligs if o.kind == kind)
         name = "%s:%s#%d" % (self.contract.key, kind, n)
@@ -1139,7 +1141,17 @@ def _b_cpath(ex, args, kwargs, st, node):
     raise Unsupported("cpath of a non-cursor")
 
 
+def _b_seq_prefix(ex, args, kwargs, st, node):
+    a, b = lift(args[0]), lift(args[1])
+    if isinstance(a, (PyTup, PyCat, PyIte)) and isinstance(b, V):
+        a = coerce(a, b.ty)
+    if isinstance(a, V) and isinstance(b, V) and a.ty is b.ty and (a.ty is STR or isinstance(a.ty, SeqT)):
+        return V(BOOL, z3.PrefixOf(a.t, b.t))
+    raise Unsupported("seq_prefix of %r, %r" % (a, b))
+
+
 BUILTINS = {
+    "seq_prefix": PyFn("seq_prefix", _b_seq_prefix),
     "cpath": PyFn("cpath", _b_cpath),
     "dhead": PyFn("dhead", _b_dhead), "dtail": PyFn("dtail", _b_dtail), "dcons": PyFn("dcons", _b_dcons),
     "dput": PyFn("dput", _b_dput), "odict": PyFn("odict", _b_odict), "dapp": PyFn("dapp", _b_dapp),
